@@ -14,12 +14,15 @@
 //
 // -DVH_STD: the identical calls on libstdc++ (calibration of the specification).
 // -DVH_PROBE_FN=run_x -DVH_PROBE_POL=P_y: compile probe for one (algorithm, category) instantiation.
+#include <csetjmp>
+#include <csignal>
 #include <cstdio>
 #include <cstdlib>
 #include <cstring>
 #include <algorithm>
 #include <iterator>
 #include <string>
+#include <unistd.h>
 #include <utility>
 #include <vector>
 
@@ -815,6 +818,13 @@ static bool partitioned_k(std::vector<int> const& k, int c)
     return true;
 }
 
+#ifndef VH_HANG_SECONDS
+    #define VH_HANG_SECONDS 10
+#endif
+static sigjmp_buf g_jmp;
+static int g_hung = 0;
+static void on_alarm(int) { siglongjmp(g_jmp, 1); }
+
 static std::string g_out;
 static void put_arr(char const* key, std::vector<int> const& v)
 {
@@ -856,7 +866,17 @@ static void run_case(Alg const& alg, Run const& run, std::vector<int> const& ka,
         x.A.set(x.a), x.B.set(x.b), x.D.blanks(dl), x.D2.blanks(dl);
     }
     std::memset(g_touch, 0, sizeof g_touch);
-    run.fn(x);
+    // watchdog: an algorithm that does not return within VH_HANG_SECONDS on a <= 6 element input is
+    // recorded as a "hang" event (judged by the trace specification); the rest of the group is abandoned
+    g_hung = 0;
+    if (sigsetjmp(g_jmp, 1) == 0) {
+        alarm(VH_HANG_SECONDS);
+        run.fn(x);
+        alarm(0);
+    } else {
+        g_hung = 1;
+        x.r.clear();
+    }
     g_out.clear();
     g_out += "{\"op\":\"";
     g_out += alg.name;
@@ -888,7 +908,8 @@ static void run_case(Alg const& alg, Run const& run, std::vector<int> const& ka,
         if (g_touch[i]) { p.push_back(i); }
     }
     put_arr("p", p);
-    g_out += ok ? ",\"cz\":1}\n" : ",\"cz\":0}\n";
+    g_out += ok ? ",\"cz\":1" : ",\"cz\":0";
+    g_out += g_hung ? ",\"hang\":1}\n" : "}\n";
     std::fwrite(g_out.data(), 1, g_out.size(), stdout);
     std::fflush(stdout);
 }
@@ -929,6 +950,7 @@ static long run_group(Alg const& alg, Run const& run, Domain const& dom)
                     for (int v = vlo; v <= vhi; ++v) {
                         run_case(alg, run, ka, kb, m, v, c);
                         ++count;
+                        if (g_hung) { return count; }
                     }
                 }
             }
@@ -957,6 +979,7 @@ int main(int argc, char** argv)
             }
             return k;
         };
+        std::signal(SIGALRM, on_alarm);
         std::printf("{\"op\":\"#replay\",\"inst\":\"-\"}\n");
         bool found = false;
         for (auto const& a : table()) {
@@ -975,6 +998,7 @@ int main(int argc, char** argv)
         std::fprintf(stderr, "usage: algo_driver list | run <domain> <op|op/cat,...|all>\n");
         return 2;
     }
+    std::signal(SIGALRM, on_alarm);
     Domain dom      = read_domain(argv[2]);
     std::string sel = std::string(",") + argv[3] + ",";
     bool all        = std::strcmp(argv[3], "all") == 0;
